@@ -4,7 +4,9 @@
 //!
 //! header: `bigmsg <hosts> <k> <size> <batch>`: `stream_par_iter` gives replica 0 the elements 0..k, each
 //!         mapped to a `Vec<u8>` of `size` bytes (byte j = (i + j) mod 251), `BatchMode::fixed(batch)`, then
-//!         `shuffle()`, then `(i, len, checksum)` per element, `collect_vec`.
+//!         `broadcast()` (every element goes to every replica, so the big batches certainly cross every link), then
+//!         `(i, len, checksum)` per element, `collect_vec` (each element once per replica: 2 replicas for hosts = 1,
+//!         one per host otherwise).
 //! ops:    `run`
 //! output: `got (i,len,cksum) …` sorted by i | `panic:engine` | `blocked`
 use std::sync::atomic::{AtomicU64, Ordering};
@@ -81,7 +83,7 @@ fn exec(c: &Case) -> Vec<String> {
                         let v: Vec<u8> = (0..size).map(|j| ((i as usize + j) % 251) as u8).collect();
                         (i, v)
                     })
-                    .shuffle()
+                    .broadcast()
                     .map(|(i, v)| (i, v.len() as u64, cksum(&v)))
                     .collect_vec();
                 env.execute_blocking();
